@@ -205,6 +205,16 @@ def coq_make(area, targets=None, timeout=1500, jobs=None):
             return False, out
     cmd = ["make", "-k", "-j%d" % (jobs or NCPU)] + (targets or [])
     rc, out = sh(cmd, cwd=d, timeout=timeout)
+    if rc != 0 and "inconsistent assumptions" in out:
+        # a library this area imports read-only (-Q ../Cyy Cyy) was rebuilt after our .vo files: stale objects, not a
+        # broken proof.  Drop our compiled files and build once more.
+        for pat in ("*.vo", "*.vos", "*.vok", "*.glob", ".*.aux"):
+            for f in glob.glob(os.path.join(d, pat)):
+                try:
+                    os.remove(f)
+                except OSError:
+                    pass
+        rc, out = sh(cmd, cwd=d, timeout=timeout)
     return rc == 0, out
 
 
